@@ -81,6 +81,8 @@ pub enum Pre {
     PlainStatus,
     /// a status information without receipt number whose result code (BMP 27) is this
     StatusWithResult(u8),
+    /// a status information with these figures and this receipt number (None = no receipt field)
+    FullStatus(StatusFields, Option<u64>),
     /// a status information carrying this receipt number
     ReceiptStatus(u64),
 }
@@ -146,11 +148,13 @@ pub struct ExPlan {
     pub pending_override: Option<Option<u64>>,
     /// reported by system info
     pub reported_terminal_id: Option<String>,
+    /// partial reversal: the (final) status information omits the receipt number
+    pub final_status_without_receipt: bool,
 }
 
 impl Default for ExPlan {
     fn default() -> Self {
-        ExPlan { pre: vec![], result: ExResult::Normal, status: None, card: None, silent_ms: 0, pending_override: None, reported_terminal_id: None }
+        ExPlan { pre: vec![], result: ExResult::Normal, status: None, card: None, silent_ms: 0, pending_override: None, reported_terminal_id: None, final_status_without_receipt: false }
     }
 }
 
@@ -280,6 +284,8 @@ pub struct Plan {
     /// 2 blank (NULs), 3 empty after trimming (spaces), 4 only the first character, 5 last character changed, 6 first
     /// character changed, 7 the configured one with its two halves swapped
     pub wrong_serial_variant: u8,
+    /// the registration completion carries the optional status byte (BMP 19) with this value (and a terminal id)
+    pub registration_status_byte: Option<u8>,
     /// from the start of this call on the terminal holds a dangling pre-authorisation with this receipt number and
     /// reports it on every pending query until a reversal of it completes
     pub dangling_from_call: Option<(usize, u64)>,
@@ -566,6 +572,7 @@ fn pre_packets(e: &Enc0, pre: &[Pre], status: &StatusFields) -> Vec<Vec<u8>> {
             Pre::PrintTextBlock => e.packet("packets::PrintTextBlock", &[]),
             Pre::PlainStatus => status_packet(e, status, None, None),
             Pre::StatusWithResult(c) => status_packet(e, &StatusFields { result_code: Some(*c), ..status.clone() }, None, None),
+            Pre::FullStatus(st, rcpt) => status_packet(e, st, *rcpt, None),
             Pre::ReceiptStatus(r) => status_packet(e, status, Some(*r), None),
         })
         .collect()
@@ -617,7 +624,10 @@ fn respond(sh: &mut Shared, cmd: Cmd, val: &Val) -> (Vec<Vec<u8>>, u64, Effect) 
     let status = xp.status.clone().unwrap_or(default_status);
     let mut out = pre_packets(&e, &xp.pre, &status);
     match cmd {
-        Cmd::Registration => out.push(completion(&e)),
+        Cmd::Registration => match sh.plan.registration_status_byte {
+            Some(b) => out.push(e.packet("packets::CompletionData", &[("status_byte", Val::Num(b as u128)), ("terminal_id", Val::Num(52523535)), ("currency", Val::Num(978))])),
+            None => out.push(completion(&e)),
+        },
         Cmd::SystemInfo => match xp.result {
             ExResult::Abort(c) | ExResult::AbortWithReceipt(c, _) => out.push(abort(&e, c)),
             _ => {
@@ -664,7 +674,7 @@ fn respond(sh: &mut Shared, cmd: Cmd, val: &Val) -> (Vec<Vec<u8>>, u64, Effect) 
                 let mut reported = None;
                 if *other != ExResult::NoStatus {
                     reported = Some(status.clone());
-                    out.push(status_packet(&e, &status, Some(receipt), None));
+                    out.push(status_packet(&e, &status, if xp.final_status_without_receipt { None } else { Some(receipt) }, None));
                 }
                 effect = Effect::Commit { receipt, amount, status: reported };
                 out.push(completion(&e));
